@@ -9,19 +9,19 @@ CHECKS = {
     "C01": {
         "technique": "runtime monitoring: generated core-language programs run by the real pipeline, stdout and outcome judged by an independent executable reference semantics (history + executable model); determinism re-run in a second worker process",
         "text": "Random typed programs over the whole core grammar (nesting to depth 5, all operators, five value types, all loop forms and step signs, DATA/READ, error endings 6/11/4) are executed by the real parser, linter, generator and VM; captured stdout is compared byte for byte (numbers by value in their type) and the outcome as (ok | error code + row) with rv/ref.py, a big-step reference over exact rationals. Cases that leave the exact numeric domain are discarded and counted, never judged. Held means: held on the executions counted in the evidence.",
-        "note": "Trusts the reference semantics rv/ref.py as the prescription (written from the property statements and QBasic's documented behaviour); unquoted DATA strings, READ of a number into a string variable, rounding ties and zero FOR steps are outside the judged domain; one known finding (KF-C01-1) is pinned.",
+        "note": "Trusts the reference semantics rv/ref.py as the prescription (written from the property statements and QBasic's documented behaviour). The generator includes bare numbers as conditions, UNTIL conditions whose true value is not -1, steps that are negated or come out of a FUNCTION with its own loop, limits written in terms of the counter's previous value, DATA inside blocks, MOD / AND / OR / division on LONG operands. Unquoted DATA strings, READ of a number into a string variable, rounding ties, values that are not exactly representable and zero FOR steps are outside the judged domain (discarded and counted); one known finding (KF-C01-1) is pinned.",
         "design": "DESIGN.md section 2 C01",
     },
     "C07": {
         "technique": "runtime monitoring: crash/step monitor (caught panic + site, worker death, parser input-operation budget from hook H2) around the real parse + lint on hostile inputs, plus an independent position oracle",
         "text": "About 1.5e5 (quick) / 2e6 (thorough) inputs - random bytes as UTF-8, token soups, byte/token mutations and every token prefix of all BASIC texts embedded in the repository, nesting stress to depth 200, semantic soups that reuse one name in many roles - are parsed and linted by the real code; any panic, process death, exceeded logical parser budget or error position outside the text is a violation.",
-        "note": "A hang inside the linter has no logical step counter and would be reported as inconclusive (wall-clock watchdog); stack depth is judged with the 8 MiB main-thread stack of the shipped binary.",
+        "note": "Nesting is driven to depth 20000 (the parser now has its own limits of 128 blocks / 400 expression levels). A hang inside the linter has no logical step counter and would be reported as inconclusive (wall-clock watchdog); stack depth is judged with the 8 MiB main-thread stack of the shipped binary; the worker receives text, so the file-reading entry point of the binary is not exercised.",
         "design": "DESIGN.md section 2 C07",
     },
     "C08": {
         "technique": "runtime monitoring: crash monitor (caught panic + site, worker death) around the real instruction generator and VM on type-directed generated programs over the whole repertoire, with hostile stdin and file histories",
         "text": "Accepted programs from a type-directed generator over every statement kind and built-in (wild argument values, files on a scratch directory, random stdin bytes incl. invalid UTF-8, LPRINT also against the shipped device), core-grammar programs and every accepted program embedded in the repository (as is and with literal mutations) are compiled and run by the real code; the outcome must be normal termination or a run-time error with code and position. Any panic, process death or code-less error is a violation.",
-        "note": "INKEY$ is excluded (polls the real terminal); an exhausted instruction budget is inconclusive; screen statements run against the harness's null screen.",
+        "note": "Also run: the accepted ones of C07's semantic soups (one name in many roles, undefined calls in sub-expressions, impossible arrays, array parameters, dotted constants) and the witness programs of the audit round (findings/hunt). INKEY$ is excluded (polls the real terminal); an exhausted instruction budget is inconclusive (so recursion or loops without end are not judged); screen statements run against the harness's null screen and ENVIRON against a map, so defects behind the shipped standard-library wrapper are not visible.",
         "design": "DESIGN.md section 2 C08",
     },
     "C10": {
@@ -33,7 +33,7 @@ CHECKS = {
     "C15": {
         "technique": "runtime monitoring: structural invariant walk over the generated instruction list at the quiescent point before execution, plus an online trace checker on per-instruction hook events (no pop on an empty stack, stack depth is a function of the statement address per activation, depths at procedure return equal those at entry, executed branches stay in their procedure)",
         "text": "Every accepted program embedded in the repository and 2e4 (quick) / 5e5 (thorough) generated programs are compiled and run under the monitors. The static all-paths claim of the property is outside runtime monitoring: what is decided is every path the workload executes; the evidence reports how many conditional branches were observed both taken and not taken, the opcode histogram and the number of distinct (address, depth-vector) states.",
-        "note": "GOSUB depth is legitimately variable and excluded from the depth vector; statements inside an ON ERROR GOTO handler are exempt from the depth-function clause; unexecuted paths are not judged.",
+        "note": "The return clause compares the value/register depths right after a procedure returned with those at the call (the VM drops a call's loop frames with the call); the other stacks must balance at the return itself. GOSUB depth is legitimately variable and excluded from the depth vector; statements inside an ON ERROR GOTO handler are exempt from the depth-function clause; unexecuted paths are not judged; one known finding (KF-C15-1, pinned to its program).",
         "design": "DESIGN.md section 2 C15",
     },
     "C17": {
@@ -47,13 +47,13 @@ CHECKS = {
 CHECKS["C03"] = {
     "technique": "runtime monitoring: generated call histories run by the real code; printed trace, outcome and end-of-run globals judged by the reference call semantics; context invariants (state stack, memory blocks, reference counts, static block indices) walked by a hook at every statement boundary",
     "text": "Random call graphs of 1-5 SUB/FUNCTION definitions (a third STATIC), calls nested in argument lists, every argument shape x parameter type, aliasing, histories that interleave STATIC and ordinary subprograms from the main module and from inside other subprograms, DIM SHARED variables and CONSTs; stdout, outcome (code + row) and the typed dump of the global block are compared with rv/ref.py; the invariant monitor observed every statement boundary.",
-    "note": "By-reference is judged as copy-in/copy-out with left-to-right write-back (the property's wording); by-reference arguments with side-effecting subscripts, array parameters and record parameters are not generated.",
+    "note": "By-reference is judged as copy-in/copy-out with left-to-right write-back (the property's wording); by-reference elements with pure built-in calls in the subscript (A(LBOUND(A))) are generated; side-effecting subscripts (KF-C03-2) and REDIM of shared arrays in subprograms (KF-C03-1) are pinned known findings; array and record parameters are not generated.",
     "design": "DESIGN.md section 2 C03",
 }
 CHECKS["C05"] = {
     "technique": "runtime monitoring: generated jump/handler programs in which every statement prints a unique trace token are run by the real code; the printed control-flow history, ERR values, variable values after RESUME and the final outcome are judged by the reference control semantics; context invariants walked at every statement boundary",
     "text": "Label/jump layouts in the main module: GOSUB nesting incl. RETURN label and RETURN without GOSUB, backward GOTOs, GOTO out of 1-3 nested FOR/WHILE/DO loops with distinct bounds and steps (landing inside an enclosing loop or outside), failing statements of every kind at first/middle/last position of FOR, WHILE, IF, ELSEIF and CASE blocks, inside GOSUB subroutines, inside a called SUB and inside a FUNCTION called in an expression, under every handler form (RESUME, RESUME NEXT, RESUME label, ON ERROR RESUME NEXT, ON ERROR GOTO 0, none) enabled and disabled in every order.",
-    "note": "Not generated because the property does not define them: a failing expression in a block header under an active handler, an error raised by the handler itself, RESUME label after an error inside a procedure. Handlers repair the cause before a plain RESUME.",
+    "note": "Also generated: an ELSEIF condition, a non-first CASE expression or the NEXT increment failing, repaired by the handler and re-executed by RESUME; GOSUB/RETURN inside SUBs (RETURN without a GOSUB of its own, EXIT SUB with a GOSUB pending); RESUME label into a FOR body or SELECT CASE block. Not generated because the property does not define them: RESUME NEXT after a failing block header, an error raised by the handler itself, a handler left by GOTO, RESUME label after an error inside a procedure.",
     "design": "DESIGN.md section 2 C05",
 }
 CHECKS["C06"] = {
@@ -77,19 +77,19 @@ CHECKS["C02"] = {
 CHECKS["C14"] = {
     "technique": "runtime monitoring, metamorphic between the implementation's two evaluators: CONST form vs inlined expression run by the real code, compared on output, outcome and the run-time variant tag observed at the print hook; rejection verdicts compared with the run-time outcome of the expression",
     "text": "3e4 (quick) / 5e5 (thorough) constant expressions over literals at the type boundaries, zero divisors and earlier constants, all operators, depth <= 4, declared globally, used inside a SUB or declared inside a SUB, bare and with every suffix. Accepted: same stdout, outcome and run-time type as the inlined parenthesised expression (converted through a variable of the suffix type). Rejected with Overflow / DivisionByZero: the expression must raise exactly that error at run time.",
-    "note": "Rejections with other errors (the folder cannot AND/OR non-INTEGER constants and reports TypeMismatch) are counted and listed in the evidence but not judged, because the property's iff-clause names only overflow and division by zero.",
+    "note": "A rejection with another error is a violation when the same expression evaluates normally at run time (that is how the folder's INTEGER-only AND/OR was found and repaired); when the run-time evaluation fails too it is counted and listed, not judged.",
     "design": "DESIGN.md section 2 C14",
 }
 CHECKS["C16"] = {
     "technique": "runtime monitoring: bytes captured on stdout, the printer device and the written files compared with a shadow column model (one column counter per device) over random interleaved PRINT histories and exhaustive boundary sets",
     "text": "Histories of PRINT/LPRINT/PRINT # statements interleaved over screen, LPT1 and two files (numbers of all five types and signs, strings with embedded CR/LF, separators in every position), the exhaustive column-boundary set (start column 0..30 x width 0..16 x separator x device) and PRINT USING with all format strings up to length 4 (quick) / 5 (thorough) over {# , . \\ space ! a} plus random longer ones.",
-    "note": "An embedded CR/LF may be written raw or as CR LF; PRINT USING cases outside the model (number wider than the field, commas outside thousands positions, rounding ties) are discarded and counted; LPRINT is observed on the harness's in-memory printer.",
+    "note": "Histories also contain FUNCTIONs (ordinary and STATIC) that print on another device in the middle of a PRINT list, and items that fail under ON ERROR RESUME NEXT (what was written stays, the next PRINT continues there). An embedded CR/LF may be written raw or as CR LF; PRINT USING cases outside the model (number wider than the field, commas outside thousands positions, rounding ties) are discarded and counted; LPRINT is observed on the harness's in-memory printer.",
     "design": "DESIGN.md section 2 C16",
 }
 CHECKS["C12"] = {
     "technique": "runtime monitoring: (a) run-time monitor for Type mismatch (13) and wrong-kind assertions on accepted programs, (b) metamorphic renaming of user identifiers, (c) enumerated single ill-typing edits with a known expected error family and location, all against the real checker and VM",
     "text": "(a) accepted programs of the whole-repertoire workload run under the monitor; (b) each program (accepted or rejected) consistently renamed, verdict must not change; (c) typed generator programs with a string literal put, one at a time, into every expression position that requires a number (operands, parentheses, call arguments, array subscripts, CASE expressions, FOR bounds, conditions, assignment sources), plus missing label, duplicate definition, NEXT for the wrong counter, wrong argument count and by-reference type edits: each must be rejected with an error of the matching family at the row of the edited statement.",
-    "note": "Error families are coarse sets fixed in the oracle table; positions are checked by row; PRINT items and string-valued positions are not edit sites.",
+    "note": "Also: the right and the wrong type at every argument position of 17 built-in calls; (d) the same program with its SUB/FUNCTION texts before and after the module-level code must get the same verdict, and a GOTO from a procedure to a label of the module must be rejected in both layouts. Error families are coarse sets fixed in the oracle table; positions are checked by row.",
     "design": "DESIGN.md section 2 C12",
 }
 CHECKS["C19"] = {
